@@ -26,7 +26,7 @@ def inst(name, N, S, mode=0, wait=2, depth=2, cont=0, api=0, tiers=('quick', 'th
          thorough=None, **kw):
     defs = {'VF_N': N, 'VF_S': S, 'VF_MODE': mode, 'VF_WAIT': wait, 'VF_DEPTH': depth, 'VF_CONT': cont, 'VF_API': api}
     defs.update(kw)
-    d = {'name': name, 'src': 'states.cpp', 'engine': 'cbmc', 'defs': defs, 'models': ['aligned_alloc'],
+    d = {'name': name, 'src': 'states.cpp', 'engine': 'cbmc', 'defs': defs, 'models': ['aligned_alloc'], 'rt_defs': {'VF_SCALAR_INLOG': 1},
          'unwind': unwind or max(S + 2, N + 3), 'timeout': timeout, 'tiers': list(tiers),
          # multi-group dynamic scheduling needs > 16 workers: unreachable here, the unwinding assertion proves it
          'unwind_fn': {'re:parallel_for_dynamicMultiGroupImpl.*_clI': 1},
